@@ -786,7 +786,7 @@ Proof.
   unfold fsm_step. rewrite (bind_eq get_sk _ w (sk w) w eq_refl). cbv zeta. rewrite Hst. const_dec.
   rewrite (bind_eq _ _ _ _ _ Ers). cbn [Z.eqb]. unfold ret, state_changed. subst wq. unfold quiet_world. cbn [sk]. rewrite Hst. const_dec.
   eexists. split; [reflexivity|]. cbn [sk pfx keys evs opens sends now with_sk with_out st upd_st]. rewrite Hm.
-  repeat split; auto. unfold core. destruct (sk w); reflexivity.
+  repeat split; auto.
 Qed.
 
 (* ESTABLISHED and nothing arrives: when the refresh timer runs out the Serial Query is sent *)
@@ -816,7 +816,7 @@ Proof.
   rewrite (bind_eq _ _ _ _ _ Ew). cbn [Z.eqb]. rewrite (bind_eq _ _ _ _ _ Hq). cbn [Z.eqb].
   rewrite change_state_eq'. unfold state_changed. subst wq. unfold quiet_world. cbn [sk with_out]. rewrite Hst. const_dec.
   eexists. split; [reflexivity|]. cbn [sk pfx keys evs opens sends now with_sk with_out st upd_st]. rewrite Hm.
-  repeat split; auto. unfold core. destruct (sk w); reflexivity.
+  repeat split; auto.
 Qed.
 
 (* ---------- the bound, and the full statement that is NOT proved ---------- *)
@@ -853,3 +853,44 @@ Definition C08_converge_full : Prop :=
     exists n, (n <= 16)%nat /\
       let w' := run_with_cache n (S f) c w in
       synced c w' w' /\ now w' - now w <= recovery_bound (sk w).
+
+(* ---------- Examples: the hypotheses of the exchange theorems are satisfiable ---------- *)
+Definition ex_tail : list byte := [0;0;14;16; 0;0;2;88; 0;0;28;32].
+Definition ex_cache : cache := mkCache 1 42 5 [ex_PA] [(5, [ex_PA])] ex_tail.
+
+Ltac pdu_facts := repeat split; try reflexivity; try (vm_compute; discriminate); try (vm_compute; auto; fail).
+
+Lemma ex_PA_ok : payload_ok 1 ex_PA /\ pdu_flags ex_PA = 1.
+Proof. unfold payload_ok, pdu_ok. pdu_facts. Qed.
+Lemma ex_PB_ok : payload_ok 1 ex_PB /\ pdu_flags ex_PB = 1.
+Proof. unfold payload_ok, pdu_ok. pdu_facts. Qed.
+
+Lemma ex_dataset_PA : dataset_ok 1 [ex_PA].
+Proof.
+  split; [constructor; [exact ex_PA_ok|constructor]|]. split; vm_compute; repeat constructor. intros [].
+Qed.
+
+Lemma ex_cache_ok : cache_ok ex_cache.
+Proof.
+  unfold cache_ok. cbn [c_ver c_session c_serial c_data c_hist c_eod_tail ex_cache].
+  split; [right; reflexivity|]. split; [lia|]. split; [lia|]. split; [exact ex_dataset_PA|].
+  split; [constructor; [exact ex_dataset_PA|constructor]|].
+  split; [unfold pdu_ok; pdu_facts|].
+  unfold ex_tail. repeat (apply Forall_cons; [lia|]). apply Forall_nil.
+Qed.
+
+Example one_good_exchange_reset_example :
+  let w2 := run_fsm 2 100 ex_w0 in       (* CONNECTING -> RESET -> SYNC: a Reset Query is pending *)
+  pending_query w2 = QReset /\ synced ex_cache w2 (run_fsm 1 100 w2) /\ Inv (run_fsm 1 100 w2).
+Proof.
+  cbv zeta. set (w2 := run_fsm 2 100 ex_w0).
+  assert (HI : Inv w2) by (apply run_fsm_Inv, ex_w0_Inv).
+  split; [reflexivity|].
+  assert (Hd : delivers (evs w2) (truthful_stream ex_cache w2 ++ []) (skipn 1 (evs w2))).
+  { exists [ex_CR ++ ex_PA ++ ex_EOD]. split; vm_compute; reflexivity. }
+  pose proof (one_good_exchange 99 w2 ex_cache [] (skipn 1 (evs w2)) HI eq_refl eq_refl ex_cache_ok) as H.
+  assert (Hs : snapshot_hyp ex_cache w2) by (intros old Hq; vm_compute in Hq; discriminate).
+  specialize (H Hs eq_refl Hd). cbv zeta in H.
+  destruct H as (A & _ & B); [vm_compute; lia|intros k old [E|[]]; inversion E; subst; vm_compute; lia|].
+  split; [exact A|exact B].
+Qed.
